@@ -1,4 +1,6 @@
 """C03 LM fusion: LM score is the LM's own score; result maximises vis + scale*LM."""
+import copy
+
 import numpy as np
 
 from vf.oracles import ctc
@@ -14,8 +16,8 @@ RULE = ('CTC matrices as in C02 (T 1-8, C 3-5) x history-dependent LMs (toy LM w
 ASSUMPTIONS = ['LM scores are compared within 1e-8 (float64 LMs)', 'ties of the final arg-max (two best totals within 1e-9) are skipped as ambiguous',
                'the "LM state returned" is compared with the state after the arg-max transcript from the same start state']
 N = {'quick': 1600, 'thorough': 60000}
-CLASSES = ['hash', 'hash', 'hash_init', 'hash_scale0', 'torch', 'hash_eos', 'hash', 'torch_init', 'hash_sequence', 'torch_sequence']
-REQUIRED = ['reweighted_bag_checked', 'shifted_bag_checked', 'sequence_calls_checked', 'lm_scores_checked', 'best_checked', 'scale0_checked', 'confidence_checked', 'state_checked', 'beam_compared', 'torch_cases', 'nonunit_scale_best_checked']
+CLASSES = ['hash', 'hash', 'hash_init', 'hash_scale0', 'torch', 'hash_eos', 'hash', 'torch_init', 'hash_sequence', 'torch_sequence', 'homographs', 'wide_beam']
+REQUIRED = ['homograph_alphabets', 'beams_over_1024_prefixes', 'torch_lms_arriving_in_training_mode', 'reweighted_bag_checked', 'shifted_bag_checked', 'sequence_calls_checked', 'lm_scores_checked', 'best_checked', 'scale0_checked', 'confidence_checked', 'state_checked', 'beam_compared', 'torch_cases', 'nonunit_scale_best_checked']
 SHARDS = {'quick': 8, 'thorough': 16}
 
 
@@ -36,10 +38,21 @@ def gen(rng, i, ctx):
     scale = float(rng.choice([0, 0.1, 0.5, 1, 2, 3]))
     if cls == 'hash_scale0':
         scale = 0.0
-    return {'cls': cls, 'lp': lp, 'kind': kind, 'k': int(rng.choice([1, 2, 4, 8])), 'scale': scale,
+    kk = int(rng.choice([1, 2, 4, 8]))
+    if cls == 'homographs':
+        lp = make_matrix(rng, str(rng.choice(['rand', 'repeats', 'twolevel'])), int(rng.integers(2, 7)), int(rng.integers(3, 5)))
+        kk = int(rng.choice([4, 8, 50]))
+    if cls == 'wide_beam' and (i // len(CLASSES)) % 6:
+        cls = 'hash'                      # (one in six: a wide beam costs a few hundred milliseconds)
+    if cls == 'wide_beam':
+        # beams of more than a thousand prefixes: a diffuse matrix over 6 symbols, 6-8 frames
+        lp = make_matrix(rng, 'rand', int(rng.integers(6, 9)), 7)
+        lp = np.log(np.exp(lp * 0.15) / np.exp(lp * 0.15).sum(1, keepdims=True))
+        kk = int(rng.choice([1100, 1500, 2100]))
+    return {'cls': cls, 'lp': lp, 'kind': kind, 'k': kk, 'scale': scale,
             'bonus': float(rng.choice([0, 0.3, 1.0])), 'eos': bool(cls == 'hash_eos' or rng.random() < 0.3),
             'init': cls.endswith('_init'), 'lm_seed': int(rng.integers(0, 1 << 30)),
-            'default_selector': bool(rng.random() < 0.5), 'prev': [int(x) for x in rng.integers(0, C - 1, size=int(rng.integers(0, 5)))]}
+            'default_selector': bool(rng.random() < 0.5) and cls != 'wide_beam', 'prev': [int(x) for x in rng.integers(0, C - 1, size=int(rng.integers(0, 5)))]}
 
 
 def describe(case):
@@ -53,11 +66,19 @@ def check(case, mon, ctx):
     lp, k, scale, bonus, eos = case['lp'], case['k'], case['scale'], case['bonus'], case['eos']
     C = lp.shape[1]
     letters = [chr(0x61 + c) for c in range(C - 1)]
+    if case['cls'] == 'homographs':
+        # an alphabet with a ligature-like symbol: two different label sequences spell the same text ('aa' vs 'a','a')
+        letters[-1] = letters[0] * 2
+        mon.count('homograph_alphabets')
     is_torch = case['cls'].startswith('torch')
     if is_torch:
         mon.count('torch_cases')
-        raw = ctx.stubs.make_lstm_lm(letters, case['lm_seed'], dim=int(8 + case['lm_seed'] % 9))
-        lm = ctx.LMWrapper(raw, letters, torch.device('cpu'))
+        trained = case['lm_seed'] % 2 == 0
+        raw_in = ctx.stubs.make_lstm_lm(letters, case['lm_seed'], dim=int(8 + case['lm_seed'] % 9), dropout=0.3 if trained else 0.0, train_mode=trained)
+        if trained:
+            mon.count('torch_lms_arriving_in_training_mode')
+        raw = copy.deepcopy(raw_in).eval()            # the oracle's own copy of the model, in inference mode
+        lm = ctx.LMWrapper(raw_in, letters, torch.device('cpu'))
         init_h, h0_raw = None, None
         if case['init']:
             # state carried over from a previous line, exactly as the page decoder builds it
@@ -87,16 +108,29 @@ def check(case, mon, ctx):
         mon.violation('decode-raises', {'exception': repr(e)[:300]})
         return
     hyps = list(boh)
+    if len(hyps) > 1024:
+        mon.count('beams_over_1024_prefixes')
     mon.observe('hypotheses', [(x.transcript, round(float(x.vis_sc), 9), round(float(x.lm_sc), 7)) for x in hyps])
     totals = []
     lm_scores = set()
-    for hyp in hyps:
-        ids = [letters.index(ch) for ch in hyp.transcript]
-        exp, _ = score(ids, eos)
-        exp += bonus * len(ids)
+    spelt = {}
+
+    def spellings(text):
+        """all label sequences over `letters` that spell text (exactly one for single-character alphabets)"""
+        if text == '':
+            return [[]]
+        out = []
+        for k, sym in enumerate(letters):
+            if text.startswith(sym):
+                out += [[k] + rest for rest in spellings(text[len(sym):])]
+        return out
+    for hi, hyp in enumerate(hyps):
+        cands = [(ids, score(ids, eos)[0] + bonus * len(ids)) for ids in spellings(hyp.transcript)]
         mon.count('lm_scores_checked')
-        if abs(exp - hyp.lm_sc) > 1e-8:
-            mon.violation('lm-score-is-the-models-own', {'transcript': hyp.transcript, 'lm_sc': float(hyp.lm_sc), 'expected': exp})
+        match = [ids for ids, e in cands if abs(e - hyp.lm_sc) <= 1e-8]
+        if not match:
+            mon.violation('lm-score-is-the-models-own', {'transcript': hyp.transcript, 'lm_sc': float(hyp.lm_sc), 'expected': [e for _, e in cands][:4]})
+        spelt[hi] = match[0] if match else (cands[0][0] if cands else [])
         totals.append(hyp.vis_sc + scale * hyp.lm_sc)
         lm_scores.add(round(float(hyp.lm_sc), 6))
     if len(lm_scores) >= 2:
@@ -116,12 +150,13 @@ def check(case, mon, ctx):
                           'hyps': [(x.transcript, float(x.vis_sc), float(x.lm_sc)) for x in hyps]})
         mon.count('confidence_checked')
         post = np.array(totals) - np.logaddexp.reduce(np.array(totals))
-        if abs(boh.confidence() - float(np.exp(post[order[0]]))) > 1e-9 or abs(boh.confidence() - boh.transcript_confidence(best)) > 1e-12:
+        unique_text = sum(1 for x in hyps if x.transcript == best) == 1       # (with homographs a text can occur twice in the bag: confidence by text is then not defined)
+        if abs(boh.confidence() - float(np.exp(post[order[0]]))) > 1e-9 or (unique_text and abs(boh.confidence() - boh.transcript_confidence(best)) > 1e-12):
             mon.violation('confidence-is-posterior-of-result', {'confidence': boh.confidence(), 'expected': float(np.exp(post[order[0]]))})
         if abs(sum(np.exp(boh.posteriors())) - 1) > 1e-9:
             mon.violation('posteriors-sum-to-1', {'sum': float(sum(np.exp(boh.posteriors())))})
-        # state returned for carrying over = LM state after the result
-        ids = [letters.index(ch) for ch in best]
+        # state returned for carrying over = LM state after the result (the label sequence of the best-scoring hypothesis)
+        ids = spelt[int(order[0])]
         _, hexp = score(ids, False)
         mon.count('state_checked')
         if is_torch:
@@ -145,7 +180,7 @@ def check(case, mon, ctx):
             e_conf = float(np.exp(t2[o2[0]] - np.logaddexp.reduce(t2)))
             if boh.best_hyp() != hyps[int(o2[0])].transcript:
                 mon.violation('result-maximises-vis-plus-scaled-lm', {'after': 'lm_weight set to %r on a bag that was queried before' % w2, 'best_hyp': boh.best_hyp(), 'argmax': hyps[int(o2[0])].transcript})
-            elif abs(boh.confidence() - e_conf) > 1e-9 or abs(boh.transcript_confidence(boh.best_hyp()) - e_conf) > 1e-9:
+            elif abs(boh.confidence() - e_conf) > 1e-9 or (sum(1 for x in hyps if x.transcript == hyps[int(o2[0])].transcript) == 1 and abs(boh.transcript_confidence(boh.best_hyp()) - e_conf) > 1e-9):
                 mon.violation('confidence-is-posterior-of-result', {'after': 'lm_weight set to %r on a bag that was queried before' % w2, 'confidence': boh.confidence(),
                               'transcript_confidence': boh.transcript_confidence(boh.best_hyp()), 'expected': e_conf})
         for shift in (-800.0, -3000.0, 800.0):
@@ -179,7 +214,7 @@ def check(case, mon, ctx):
             mon.skip_ambiguous('beam-tie')
         else:
             mon.count('beam_compared')
-            got = {tuple(letters.index(ch) for ch in x.transcript): float(x.vis_sc) for x in hyps}
+            got = {tuple(spelt[hi]): float(x.vis_sc) for hi, x in enumerate(hyps)}
             if set(got) != set(ref) or any(np.isfinite(ref[p]) and abs(got[p] - ref[p]) > 1e-9 for p in ref):
                 mon.violation('equals-fused-beam-search', {'got': sorted(got), 'expected': sorted(ref)})
 
